@@ -1,8 +1,10 @@
 """C17: a fixed family of C++ types described by shape descriptors; generators of fitting and mis-shaped JSON values."""
 from wire import Obj
 
-# descriptor: ("int", lo, hi) | ("str",) | ("bool",) | ("seq", d) | ("map", d) | ("tuple", [d…]) | ("opt", d) | ("array", d, n) | ("set", d)
+# descriptor: ("int", lo, hi) | ("str",) | ("bool",) | ("seq", d) | ("map", d) | ("tuple", [d…]) | ("pair", a, b) | ("opt", d) | ("array", d, n)
+#             | ("set", d) | ("mset", d) (multiset) | ("uset", d) (unordered_set: element order not defined)
 #             | ("enum", [names]) | ("variant", [d…]) | ("ptr", d) | ("struct", [(name, d, mandatory)…], all_mandatory)
+# fixed shapes: tuple (takes the leading elements of a longer array, by design, on both routes), pair and array (exact length)
 I8 = ("int", -2 ** 7, 2 ** 7 - 1)
 U8 = ("int", 0, 2 ** 8 - 1)
 I16 = ("int", -2 ** 15, 2 ** 15 - 1)
@@ -15,15 +17,64 @@ BOOL = ("bool",)
 S1 = ("struct", [(b"zeta", STR, True), (b"alpha", I32, True), (b"mid", ("opt", I32), False), (b"note", ("opt", STR), False)])
 S2 = ("struct", [(b"items", ("seq", S1), True), (b"by_name", ("map", S1), True), (b"flag", BOOL, True)])
 S3 = ("struct", [(b"id", U16, True), (b"label", ("ptr", STR), False), (b"bytes", ("opt", ("seq", I8)), False)])
-TYPES = {
-    "i32": I32, "u8": U8, "i64": I64, "u64": U64, "str": STR, "bool": BOOL, "vi32": ("seq", I32), "mi16": ("map", I16),
-    "tup": ("tuple", [I32, STR, BOOL]), "oi32": ("opt", I32), "vos": ("seq", ("opt", STR)), "s1": S1, "s2": S2, "s3": S3,
-    "pair": ("tuple", [I32, STR]), "arr3": ("array", I32, 3), "vvu16": ("seq", ("seq", U16)), "sets": ("set", STR),
-    "enum": ("enum", [b"red", b"green", b"blue"]), "var": ("variant", [I32, STR]), "sps1": ("ptr", S1), "vs1": ("seq", S1), "ms3": ("map", S3),
+PIS = ("pair", I32, STR)
+PII = ("pair", I32, I32)
+S4 = ("struct", [(b"fl", ("seq", STR), True), (b"li", ("seq", BOOL), True), (b"dq", ("seq", STR), True), (b"pr", PIS, True), (b"tp", ("tuple", [I32, STR]), True),
+                 (b"ar", ("array", I32, 2), True), (b"st", ("mset", STR), True), (b"op", ("opt", PII), False)])
+# the family, by harness slice (harness/ty.cpp, ty2.cpp, ty3.cpp, ty4.cpp: see ty_family.hpp)
+PARTS = {
+    "ty": {
+        "i32": I32, "u8": U8, "i64": I64, "u64": U64, "str": STR, "bool": BOOL, "vi32": ("seq", I32), "mi16": ("map", I16),
+        "tup": ("tuple", [I32, STR, BOOL]), "oi32": ("opt", I32), "vos": ("seq", ("opt", STR)),
+        "pair": PIS, "arr3": ("array", I32, 3), "vvu16": ("seq", ("seq", U16)), "sets": ("set", STR),
+        "enum": ("enum", [b"red", b"green", b"blue"]), "var": ("variant", [I32, STR]),
+    },
+    "ty2": {"s1": S1, "s2": S2, "s3": S3, "sps1": ("ptr", S1), "vs1": ("seq", S1), "ms3": ("map", S3)},
+    "ty3": {   # forward_list (no size(), insert_after), list, deque, multiset, unordered_set, unordered_map, optional around / inside containers
+        "fls": ("seq", STR), "flp": ("seq", PIS), "lso": ("seq", ("opt", I32)), "lss": ("seq", STR), "dqb": ("seq", BOOL), "dqs": ("seq", ("opt", STR)),
+        "msets": ("mset", STR), "usets": ("uset", STR), "umi": ("map", I32), "ovi": ("opt", ("seq", I32)), "moi": ("map", ("opt", I32)), "mfl": ("map", ("seq", STR)),
+    },
+    "ty4": {   # fixed shapes alone, in each other and in containers
+        "vpair": ("seq", PIS), "mpair": ("map", PII), "vtup": ("seq", ("tuple", [I32, STR])), "mtup": ("map", ("tuple", [BOOL, I32, STR])),
+        "tup1": ("tuple", [I32]), "tup2": ("tuple", [STR, I32]), "ppair": ("pair", PII, STR), "pvo": ("pair", ("opt", I32), ("seq", STR)),
+        "arr2s": ("array", STR, 2), "arr22": ("array", ("array", I32, 2), 2), "varr": ("seq", ("array", I32, 2)), "marr": ("map", ("array", I32, 3)),
+        "opair": ("opt", PIS), "s4": S4,
+    },
 }
-OBJECT_ROOTED = ["s1", "s2", "s3", "mi16", "ms3"]
+TYPES = {tid: d for part in PARTS.values() for tid, d in part.items()}
+HARNESS_OF = {tid: h for h, part in PARTS.items() for tid in part}
+
+
+def root_is_object(d):
+    return d[0] in ("map", "struct")
+
+
+OBJECT_ROOTED = [tid for tid, d in TYPES.items() if root_is_object(d)]       # BSON holds documents only
+
+
+def contains(d, kind):
+    """does a node of this kind occur anywhere in the descriptor"""
+    if d[0] == kind:
+        return True
+    return any(contains(c, kind) for c in child_descs(d))
+
+
+def child_descs(d):
+    k = d[0]
+    if k in ("seq", "set", "mset", "uset", "map", "opt", "ptr", "array"):
+        return [d[1]]
+    if k in ("tuple", "variant"):
+        return list(d[1])
+    if k == "pair":
+        return [d[1], d[2]]
+    if k == "struct":
+        return [md for _, md, _ in d[1]]
+    return []
 STRS = [b"", b"a", b"zeta", b"\xc3\xa9", b"hello world", b"5", b"true", b"null", b"x" * 20, b'q"\\']
 KEYS = [b"a", b"b", b"k", b"", b"\xc3\xa9", b"zeta", b"x y"]
+
+
+SEQS = ("seq", "set", "mset", "uset")
 
 
 def gen(rng, d, depth=3):
@@ -35,13 +86,15 @@ def gen(rng, d, depth=3):
         return rng.choice(STRS)
     if k == "bool":
         return rng.random() < 0.5
-    if k in ("seq", "set"):
+    if k in SEQS:
         return [gen(rng, d[1], depth - 1) for _ in range(rng.choice([0, 1, 2, 3]) if depth > 0 else 0)]
     if k == "map":
         ks = rng.sample(KEYS, rng.choice([0, 1, 2, 3]) if depth > 0 else 0)
         return Obj([(kk, gen(rng, d[1], depth - 1)) for kk in ks])
     if k == "tuple":
         return [gen(rng, x, depth - 1) for x in d[1]]
+    if k == "pair":
+        return [gen(rng, d[1], depth - 1), gen(rng, d[2], depth - 1)]
     if k == "array":
         return [gen(rng, d[1], depth - 1) for _ in range(d[2])]
     if k in ("opt", "ptr"):
@@ -73,9 +126,12 @@ def misshape(rng, d, v):
     """one deliberate defect somewhere in v (which fits d): returns a value that does not fit"""
     k = d[0]
     children = []
-    if k in ("seq", "set", "array") and v:
+    if k in SEQS + ("array",) and v:
         i = rng.randrange(len(v))
         children.append(("elem", i, d[1]))
+    if k == "pair" and v:
+        i = rng.randrange(2)
+        children.append(("elem", i, d[1 + i]))
     if k == "tuple" and v:
         i = rng.randrange(len(v))
         children.append(("elem", i, d[1][i]))
@@ -100,6 +156,8 @@ def misshape(rng, d, v):
         return v[:-1]
     if k == "array" and rng.random() < 0.6:
         return v[:-1] if rng.random() < 0.5 else v + [0]
+    if k == "pair" and rng.random() < 0.6:
+        return v[:rng.choice([0, 1])] if rng.random() < 0.5 else v + [rng.choice([0, b"x", None, v[1]])]
     if k == "struct" and rng.random() < 0.6:
         mand = [n for n, _, m in d[1] if m]
         drop = rng.choice(mand)
@@ -121,7 +179,7 @@ def fits_kind(d, w):
         return True                                        # as<std::string> accepts anything (D57): never used as a defect
     if k == "bool":
         return isinstance(w, (bool, int))
-    if k in ("seq", "set", "array", "tuple"):
+    if k in SEQS + ("array", "tuple", "pair"):
         return isinstance(w, list)
     if k in ("map", "struct"):
         return isinstance(w, Obj)
@@ -132,3 +190,97 @@ def fits_kind(d, w):
     if k == "variant":
         return any(fits_kind(x, w) for x in d[1])
     return False
+
+
+# ---- systematic streams -------------------------------------------------------------------------------------------------------------
+
+def fixed_paths(d, path=()):
+    """paths (tuples of steps) to every fixed-shape node of the descriptor, with its length; a step is 'elem' (first element of a sequence,
+    made to exist), ('idx', i), 'member' (first member of a map, made to exist), ('key', name), 'some' (the engaged optional)"""
+    k = d[0]
+    out = []
+    if k == "tuple":
+        out.append((path, len(d[1]), d))
+        for i, c in enumerate(d[1]):
+            out += fixed_paths(c, path + (("idx", i),))
+    elif k == "pair":
+        out.append((path, 2, d))
+        out += fixed_paths(d[1], path + (("idx", 0),)) + fixed_paths(d[2], path + (("idx", 1),))
+    elif k == "array":
+        out.append((path, d[2], d))
+        out += fixed_paths(d[1], path + (("idx", 0),))
+    elif k in SEQS:
+        out += fixed_paths(d[1], path + ("elem",))
+    elif k == "map":
+        out += fixed_paths(d[1], path + ("member",))
+    elif k in ("opt", "ptr"):
+        out += fixed_paths(d[1], path + ("some",))
+    elif k == "struct":
+        for name, md, _ in d[1]:
+            out += fixed_paths(md, path + (("key", name),))
+    return out
+
+
+def gen_full(rng, d, depth=4):
+    """a fitting value in which every container has at least one element, every optional is engaged and every declared member is present
+    (so that every path of fixed_paths exists)"""
+    k = d[0]
+    if k in SEQS:
+        return [gen_full(rng, d[1], depth - 1) for _ in range(rng.choice([1, 2, 3]))]
+    if k == "map":
+        return Obj([(kk, gen_full(rng, d[1], depth - 1)) for kk in rng.sample(KEYS, rng.choice([1, 2]))])
+    if k == "tuple":
+        return [gen_full(rng, x, depth - 1) for x in d[1]]
+    if k == "pair":
+        return [gen_full(rng, d[1], depth - 1), gen_full(rng, d[2], depth - 1)]
+    if k == "array":
+        return [gen_full(rng, d[1], depth - 1) for _ in range(d[2])]
+    if k in ("opt", "ptr"):
+        return gen_full(rng, d[1], depth)
+    if k == "struct":
+        return Obj([(name, gen_full(rng, md, depth - 1)) for name, md, _ in d[1]])
+    return gen(rng, d, depth)
+
+
+def at_path(v, path, f):
+    """copy of v with the node at path replaced by f(node)"""
+    if not path:
+        return f(v)
+    step, rest = path[0], path[1:]
+    if step == "some":
+        return at_path(v, rest, f)
+    if step == "elem":
+        return [at_path(v[0], rest, f)] + v[1:] if len(v) < 2 else v[:-1] + [at_path(v[-1], rest, f)]       # the last element: the ones before it are well-formed
+    if step == "member":
+        return Obj(v.members[:-1] + [(v.members[-1][0], at_path(v.members[-1][1], rest, f))])
+    if step[0] == "idx":
+        return [at_path(x, rest, f) if i == step[1] else x for i, x in enumerate(v)]
+    return Obj([(n, at_path(x, rest, f) if n == step[1] else x) for n, x in v.members])
+
+
+EXTRAS = [0, b"x", None, True, [], [1, 2]]
+
+
+def resize(rng, d, v, n, like):
+    """the array v of the fixed-shape node d cut or extended to n elements; extra elements are of the element type ('like') or foreign"""
+    if n <= len(v):
+        return v[:n]
+    out = list(v)
+    while len(out) < n:
+        if like:
+            ed = d[1] if d[0] == "array" else (d[1][-1] if d[0] == "tuple" else d[2])
+            out.append(gen_full(rng, ed))
+        else:
+            out.append(rng.choice(EXTRAS))
+    return out
+
+
+def shape_cases(rng, d):
+    """for every fixed-shape node of d: a full value in which that node's array has 0, n-1, n, n+1, n+2 elements -> [(value, path, n, length)]"""
+    out = []
+    for path, n, fd in fixed_paths(d):
+        for m in sorted({0, max(n - 1, 0), n, n + 1, n + 2}):
+            for like in ((True, False) if m > n else (True,)):
+                v = gen_full(rng, d)
+                out.append((at_path(v, path, lambda node: resize(rng, fd, node, m, like)), path, n, m))
+    return out
